@@ -9,9 +9,11 @@ KEYS = ["k", "p"]
 CODE_SKIP_CONFLICT = True    # True once replay tolerates the conflict of a rolled-back PrefixAppend (fix: commit)
 
 
-def mc_cfg(skip, maxhist=4, invs="RecoverOK PrefixState CleanRestart TailLoss"):
-    return ("SPECIFICATION Spec\nCONSTANTS\n  Keys = {\"k\"}\n  Children = {\"c\", \"d\"}\n  Vals = {\"1\"}\n  MaxHist = %d\n"
-            "  SkipConflictOnReplay = %s\nINVARIANTS %s\nCHECK_DEADLOCK FALSE\n" % (maxhist, "TRUE" if skip else "FALSE", invs))
+def mc_cfg(skip, maxhist=4, invs="RecoverOK PrefixState CleanRestart TailLoss", tail_only=False, maxcrash=1, children='{"c", "d"}'):
+    t = lambda b: "TRUE" if b else "FALSE"
+    return ("SPECIFICATION Spec\nCONSTANTS\n  Keys = {\"k\"}\n  Children = %s\n  Vals = {\"1\"}\n  MaxHist = %d\n"
+            "  SkipConflictOnReplay = %s\n  SkipOnlyAtTail = %s\n  MaxCrash = %d\nINVARIANTS %s\nCHECK_DEADLOCK FALSE\n"
+            % (children, maxhist, t(skip), t(tail_only), maxcrash, invs))
 
 
 def histories(ck, n, maxhist=7, want_reject=0.6):
@@ -72,7 +74,7 @@ def record(ck, binary, h, stop=False, cycles=None, pad=None):
     return rec, out
 
 
-def reopen(ck, binary, images):
+def reopen(ck, binary, images, followup=False):
     """images: list of {relpath: bytes}; returns list of projections / errors"""
     root = tempfile.mkdtemp(prefix="aofimg-", dir=ck.scratch)
     dirs = []
@@ -84,7 +86,7 @@ def reopen(ck, binary, images):
     outs = ck.drive(binary, ["open", json.dumps(KEYS)], input_lines=None, timeout=600,
                     env=None, wrap=None) if False else None
     import subprocess
-    p = subprocess.run([binary, "open", json.dumps(KEYS)], input="\n".join(dirs) + "\n", capture_output=True, text=True, timeout=900)
+    p = subprocess.run([binary, "open", json.dumps(KEYS)] + (["followup"] if followup else []), input="\n".join(dirs) + "\n", capture_output=True, text=True, timeout=900)
     if p.returncode != 0:
         raise vf.Infra("aof open driver failed: " + p.stderr[-1500:])
     res = {}
